@@ -10,6 +10,10 @@ fn main() {
         ("c17", "replay") => yv::c17::replay(&args),
         ("c14", "record") => yv::c14::record(&args),
         ("c14", "replay") => yv::c14::replay(&args),
+        ("c04", "record") => yv::c04::record(&args),
+        ("c04", "replay") => yv::c04::replay(&args),
+        ("c18", "record") => yv::c18::record(&args),
+        ("c18", "replay") => yv::c18::replay(&args),
         _ => { eprintln!("unknown command {:?}", &a[..2]); std::process::exit(2); }
     }
 }
